@@ -139,6 +139,20 @@ func filterGen(r *Rng, tier string) Case {
 	rx := r.Intn(2)
 	n := r.Range(0, 4)
 	list := []string{}
+	if r.Chance(30) {
+		// long lists in an order of their own (a lookup structure built from the list must not care about
+		// its length or order): distinct entries, shuffled, 5 to 15 of them
+		pool := append([]string{}, relPool...)
+		if rx == 1 {
+			pool = append([]string{}, patPool...)
+		}
+		for i := len(pool) - 1; i > 0; i-- {
+			j := r.Intn(i + 1)
+			pool[i], pool[j] = pool[j], pool[i]
+		}
+		list = pool[:r.Range(5, len(pool))]
+		n = 0
+	}
 	for i := 0; i < n; i++ {
 		if rx == 1 {
 			list = append(list, Pick(r, patPool))
